@@ -420,6 +420,48 @@ fn matrix_small_det_f64(d: &mut Draw) -> Outcome {
 }
 
 
+/// native floats: a Matrix3 that is exactly singular by structure (one column +-2^k times another, generic inexact entries)
+/// has a zero determinant - every pair of Leibniz terms that cancels is the same float product twice - and so no inverse
+/// transform, through either of its Transform impls, for points or for vectors
+macro_rules! matrix3_singular {
+    ($fname:ident, $F:ty) => {
+        fn $fname(d: &mut Draw) -> Outcome {
+            type F = $F;
+            let mut t = RM::<F>::from_fn(3, |_, _| 0.0);
+            for c in 0..3 {
+                for r in 0..3 {
+                    t.e[c][r] = match d.int(0, 5) {
+                        0 => d.pick(&[0.1, 0.3, 1.0 / 3.0, 0.7, -0.1, 1e-3, 2.5, -7.0, 1e5]) as F,
+                        1 => d.int(-9, 9) as F,
+                        _ => d.f64_slog(1e-3, 1e3) as F,
+                    };
+                }
+            }
+            let (i, mut j) = (d.below(3), d.below(3));
+            if i == j {
+                j = (i + 1) % 3;
+            }
+            let k = (2.0 as F).powi(d.int(-3, 3) as i32) * if d.bool() { 1.0 } else { -1.0 };
+            for r in 0..3 {
+                t.e[j][r] = k * t.e[i][r];
+            }
+            d.note("M", &t);
+            d.note("dependent columns, factor", &((i, j), k));
+            let m = mk_m3(&t);
+            let v3 = Vector3::new(d.f64_in(-10.0, 10.0) as F, d.f64_in(-10.0, 10.0) as F, d.f64_in(-10.0, 10.0) as F);
+            let i3 = Transform::<Point3<F>>::inverse_transform(&m);
+            ensure!(i3.is_none(), "singular-matrix3-inverts", "Matrix3 (3-D transform) with column {} = {} * column {} has inverse_transform() = {:?}", j, k, i, i3);
+            ensure!(Transform::<Point3<F>>::inverse_transform_vector(&m, v3).is_none(), "singular-matrix3-inverts-vector", "Matrix3 (3-D transform), exactly singular: inverse_transform_vector is Some");
+            let i2 = Transform::<Point2<F>>::inverse_transform(&m);
+            ensure!(i2.is_none(), "singular-matrix3-2d-inverts", "Matrix3 (2-D transform) with column {} = {} * column {} has inverse_transform() = {:?}", j, k, i, i2);
+            ensure!(Transform::<Point2<F>>::inverse_transform_vector(&m, Vector2::new(v3.x, v3.y)).is_none(), "singular-matrix3-2d-inverts-vector", "Matrix3 (2-D transform), exactly singular: inverse_transform_vector is Some");
+            pass(["columns-0-1", "columns-0-2", "columns-1-2"][i.min(j) + i.max(j) - 1], true)
+        }
+    };
+}
+matrix3_singular!(matrix3_singular_f64, f64);
+matrix3_singular!(matrix3_singular_f32, f32);
+
 // ---- f64: composing matrix transforms when one factor is (nearly) the identity -------------------------------------------
 
 /// concat, concat_self and * are one and the same product, entry by entry, also when the right factor differs from the
@@ -522,6 +564,9 @@ pub fn property() -> Property {
     add!("matrix4-Fp", "Fp", m4_exact::<Fp>, 3000, 200_000, 192, &[("affine-generic", 100), ("projective", 100), ("affine-times-scalar", 80), ("singular", 50)], "linear parts with all entries non-zero");
     add!("matrix3-Q", "Q", m3_exact::<Q>, 3000, 200_000, 192, &[("generic", 100), ("singular", 50)], "linear parts with all entries non-zero");
     add!("matrix3-Fp", "Fp", m3_exact::<Fp>, 3000, 200_000, 256, &[("generic", 100), ("singular", 50)], "linear parts with all entries non-zero");
+    const SING: &[(&str, u32)] = &[("columns-0-1", 200), ("columns-0-2", 200), ("columns-1-2", 200)];
+    add!("matrix3_singular-f64", "f64", matrix3_singular_f64, 4000, 200_000, 72, SING, "every generated matrix (one column an exact power-of-two multiple of another; generic inexact entries)");
+    add!("matrix3_singular-f32", "f32", matrix3_singular_f32, 4000, 200_000, 72, SING, "every generated matrix (one column an exact power-of-two multiple of another; generic inexact entries)");
     add!("matrix_compose-f64", "f64", matrix_compose_f64, 6000, 400_000, 128, &[("right-factor-nearly-identity", 200), ("right-factor-identity", 100), ("right-factor-generic", 200)], "every generated pair of affine matrices");
     add!("scale_threshold-f64", "f64", scale_threshold_f64, 10000, 500_000, 96,
         &[("zero", 100), ("negligible", 100), ("just-above", 50), ("small", 50), ("huge", 50), ("ordinary", 150)], "every generated transform; scale classes zero / negligible / just above 1e-6 / small / ordinary required");
